@@ -108,6 +108,18 @@ CLAIMED = {
                  "[profile] sections and XDG path are not yet covered. Flat-stream keys are generated sorted because of known finding C01 yaml-reader-sorts-keys."),
         "design_ref": "DESIGN.md section 4 C02",
     },
+    "C05": {
+        "level": "exploration",
+        "technique": "property-based testing: Hypothesis-generated chains/streams/file splits; differential oracle (then-chain vs real OS pipe; files together vs apart; every input source vs the plain file) plus Python bookkeeping model for NR/FNR/FILENAME/FILENUM/NF",
+        "text": ("(1) Generated JSON streams (narrow and 13-field records) through chains of 2-4 verbs from ~65 variants (incl. rename/reorder followed by by-name "
+                 "lookups, positional-name assignment, emit, stats, sort, head -g): `mlr A then B ...` must be byte-identical to `mlr A | mlr B | ...`; text "
+                 "pipelines through csv/tsv/dkvp/xtab for non-computing verbs. (2) Generated splits into 1-5 files (empty files, different widths, implicit "
+                 "header, csvlite, nidx, json): together == concatenation of each alone; NR/FNR/FILENAME/FILENUM/NF/end-block NR == Python bookkeeping; head -g "
+                 "early exit; cat -n --filename --filenum. (3) The same bytes (0-30000 records) via stdin, --from, --mfrom, .gz/.bz2/.z/.zst by extension and "
+                 "by flag, --prepipe/--prepipex/--prepipe-gunzip/-zcat, names with spaces and quotes; prepipe cases repeated 3x incl. GOMAXPROCS=1."),
+        "note": "Verbs consulting NR/FNR after a record-dropping verb are excluded as the statement says. zstd cases need the zstd binary (skipped and counted if absent). Pipe timing is sampled, not controlled.",
+        "design_ref": "DESIGN.md section 4 C05",
+    },
 }
 
 NOT_YET = "check not built yet in this session (see DESIGN.md section 8 build order); will be claimed when its sub-checks run"
